@@ -417,6 +417,31 @@ func cmdCheck(args []string) int {
 
 	// Known findings that fired: one line per distinct key.
 	knownSeen := map[string]bool{}
+	// (the per-run list of hits is capped; the counters are not)
+	var counted []string
+	for c, n := range total.Counters {
+		if n > 0 && strings.HasPrefix(c, "known/") {
+			counted = append(counted, strings.TrimPrefix(c, "known/"))
+		}
+	}
+	sort.Strings(counted)
+	for _, key := range counted {
+		listed := false
+		for _, k := range total.KnownHits {
+			if k.Key() == key {
+				listed = true
+			}
+		}
+		if listed {
+			continue
+		}
+		for _, ke := range knownEntries {
+			if ke.Property+"/"+ke.Oracle+"/"+ke.Sig == key {
+				knownSeen[key] = true
+				fmt.Printf("KNOWN-FINDING: property=%s %s (%s)\n", ke.Property, ke.What, key)
+			}
+		}
+	}
 	for _, k := range total.KnownHits {
 		if !knownSeen[k.Key()] {
 			knownSeen[k.Key()] = true
